@@ -218,3 +218,18 @@ def diff(sa, sb, keys=("atoms", "calls", "returns"), exempt=()):
         if a != b:
             out.append((k, sorted(a - b), sorted(b - a)))
     return out
+
+
+def align_params(fa, fb, explicit=None):
+    """arg_map for side b: a parameter of b whose name does not occur among a's parameters is mapped to the name of
+    a's parameter at the same position when that one does not occur among b's (one-sided renames are not differences).
+    Explicit entries win."""
+    explicit = dict(explicit or {})
+    na, nb = fa.param_names(), fb.param_names()
+    out = {}
+    if len(na) == len(nb):
+        for x, y in zip(na, nb):
+            if x and y and x != y and y not in na and x not in nb and y not in explicit and x not in explicit.values():
+                out[y] = x
+    out.update(explicit)
+    return out
